@@ -56,6 +56,13 @@ func callIntrinsic(fr *frame, fn *ssa.Function, args []value) (value, bool) {
 	}
 	x := fr.i.x
 	tb := x.tb
+	if x.spec > 0 {
+		switch name {
+		case "zzvInt", "zzvIntIn", "zzvBool", "zzvChoice", "zzvFloat", "zzvFloatIn", "zzvString", "zzvByteString",
+			"zzvAssume", "zzvKnown", "zzvKnownEnd", "zzvFreeze", "zzvUnfreeze", "zzvFloatMag", "zzvBodyChildren":
+			panic(specAbort{"intrinsic " + name + " in a speculative arm"})
+		}
+	}
 	switch name {
 	case "zzvInt":
 		s := x.nondet("int", types.Int, smt.Int)
@@ -116,6 +123,12 @@ func callIntrinsic(fr *frame, fn *ssa.Function, args []value) (value, bool) {
 		return nil, true
 	case "zzvReach":
 		label := x.constStr(args[0], "reach label")
+		if x.spec > 0 && x.checking() {
+			// inside a joined arm the label counts only if the arm is feasible
+			if r, _ := x.query(tb.True, false); r != smt.Sat {
+				return nil, true
+			}
+		}
 		x.reached = append(x.reached, label)
 		if x.checking() && x.needWit != nil && x.needWit(label) {
 			if r, m := x.query(tb.True, true); r == smt.Sat {
@@ -198,7 +211,7 @@ func callIntrinsic(fr *frame, fn *ssa.Function, args []value) (value, bool) {
 		return x.mkSym(types.Bool, tb.SuffixOf(x.term(args[1]), x.term(args[0]))), true
 	case "zzvItoa":
 		t := x.term(args[0])
-		return x.mkSym(types.String, tb.Ite(tb.Lt(t, tb.IntC(0)), tb.Concat(tb.StrC("-"), tb.StrFromInt(tb.Neg(t))), tb.StrFromInt(t))), true
+		return x.mkSym(types.String, tb.Itoa(t)), true
 	}
 	panic(enginePanic{fmt.Sprintf("unknown intrinsic %s", name)})
 }
